@@ -318,6 +318,10 @@ pub assume_specification[ <i128 as core::convert::From<u32>>::from ](x: u32) -> 
 pub assume_specification[ <i128 as core::convert::From<u16>>::from ](x: u16) -> (r: i128) ensures r == x as i128;
 pub assume_specification[ <i128 as core::convert::From<u8>>::from ](x: u8) -> (r: i128) ensures r == x as i128;
 
+/// `Box<T>: AsRef<T>` (neighbouring API: a change that reaches through a box with `.as_ref()` should be refutable, not a tool limit)
+pub assume_specification<T: ?Sized, A: std::alloc::Allocator>[ <Box<T, A> as AsRef<T>>::as_ref ](b: &Box<T, A>) -> (r: &T)
+    ensures r == &**b;
+
 // ---- byte-range slicing of `&str` (R23) and the shape of a lexer token ------------------------------------------------------------
 pub open spec fn is_ascii_char(c: char) -> bool { (c as u32) < 128 }
 pub open spec fn ascii_prefix(s: Seq<char>, n: int) -> bool { 0 <= n <= s.len() && forall|i: int| 0 <= i < n ==> is_ascii_char(#[trigger] s[i]) }
